@@ -242,6 +242,7 @@ def extract_scenario(eng, model, vars_):
 # 2. replay on the real classes (no z3 needed)
 # =====================================================================================================================
 class Universe:
+    mocks = 0          # objects the model did not describe (rebuilt as mocks) / attributes the run touched without model
     strings = []
     ints = list(range(-2, 8))
     objects = []
@@ -464,6 +465,7 @@ class Builder:
                 except Exception:
                     cls = None
             if cls is None or not o['fields']:
+                U.mocks += 1
                 inst = MagicMock(name=o['cls'])
                 self.objs[rid] = inst
                 for f, v in o['fields'].items():
@@ -506,6 +508,7 @@ class Builder:
             for kk, vv in o['items'].items():
                 out[kk] = self.value(vv)
             return out
+        U.mocks += 1
         m = MagicMock()
         self.objs[rid] = m
         return m
@@ -527,6 +530,8 @@ class _Lenient:
             m = MagicMock(name=f'{type(self).__name__}.{name}')
             if name == 'logger':
                 m.level = 0
+            else:
+                U.mocks += 1
             object.__setattr__(self, name, m)
             return m
         try:
@@ -553,6 +558,7 @@ def replay_scenario(doc):
     if rest.endswith(']'):
         rest, kind = rest[:-1].split('[')
     mod = importlib.import_module('supvisors.' + modname)
+    U.mocks = 0
     b = Builder(scn)
     params = {k: b.value(v) for k, v in scn['params'].items()}
     U.strings = list(scn.get('strings', []))
@@ -621,7 +627,7 @@ def replay_scenario(doc):
         except Exception as e:   # the real code raised
             outcome, exc = 'raised', e
     rep = {'outcome': outcome, 'exception': f'{type(exc).__name__}: {exc}' if exc else None,
-           'result': repr(result)[:200]}
+           'result': repr(result)[:200], 'mocked_objects_involved': U.mocks}
     if pre_failed:
         rep['reproduced'] = None
         rep['detail'] = f'the object graph rebuilt from the model does not satisfy precondition {pre_failed} natively ' \
@@ -647,6 +653,13 @@ def replay_scenario(doc):
                         failed.append('post:' + cname_)
                 except Exception:
                     pass
+        if U.mocks:
+            # the run went through objects the model does not describe (externals, unmodelled attributes rebuilt as
+            # mocks): the native run is not a faithful execution, nothing is concluded from it
+            rep['failed'] = []
+            rep['reproduced'] = None
+            rep['detail'] = f'not faithful: {U.mocks} mocked object(s)/attribute(s) involved'
+            return rep
         rep['failed'] = failed
         rep['reproduced'] = bool(failed)
         rep['detail'] = f'native run of the real function on a pre-state generated from the precondition: failing {failed}'
